@@ -131,7 +131,8 @@ Lemma opt_vrange_S f e a b : opt_vrange fx s (S f) e a b =
         else VFold k g (opt_mrange fx s f m 0 (mrows m) a b)
     | VScale c e1 => VScale c (opt_vrange fx s f e1 a b)
     | VConst _ c => VConst (b - a) c
-    | VUnit _ idx c => VUnit (b - a) (idx - Z.of_nat a) c
+    | VUnit _ idx c =>
+        VUnit (b - a) (if (Z.of_nat a <=? idx) && (idx <? Z.of_nat b) then idx - Z.of_nat a else Z.of_nat (b - a)) c
     | VUn g e1 => VUn g (opt_vrange fx s f e1 a b)
     | VAdd e1 e2 => VAdd (opt_vrange fx s f e1 a b) (opt_vrange fx s f e2 a b)
     | VBin g e1 e2 => VBin g (opt_vrange fx s f e1 a b) (opt_vrange fx s f e2 a b)
@@ -473,7 +474,8 @@ Ltac close := nrm; try assumption; try (f_equal; first [sext' | fext]).
 Lemma step_vrange f : S_all f -> S_vrange (S f).
 Proof.
   intros IH e a b H. rewrite opt_vrange_S. cbv zeta.
-  destruct e; try (apply vsound_refl; exact H); autoih IH.
+  destruct e; try (apply vsound_refl; exact H); autoih IH;
+    try (destruct (Z.leb_spec (Z.of_nat a) idx); destruct (Z.ltb_spec idx (Z.of_nat b)); cbn [andb]).
   all: vfin.
   all: close.
 Qed.
